@@ -93,6 +93,12 @@ def grammar(tier, rnd, limits=(None,), max_fields=2):
                 continue
             for lim in limits:
                 out.append(mk_filter(i, a, k, t, tm, lim))
+    # `since: 0` (the Unix epoch itself) beside another condition restricts nothing; `until: 0` leaves nothing
+    for lim in limits:
+        for cond in ({"kinds": [1]}, {"authors": ["A"]}, {"tags": {"t": ["a"]}}, {"ids": ["q1", "q7"]}, {"authors": ["A", "B"], "kinds": [1, 7]}):
+            out.append(dict(cond, since=-C.T0, **({"limit": lim} if lim is not None else {})))
+            out.append(dict(cond, since=-C.T0, until=31, **({"limit": lim} if lim is not None else {})))
+            out.append(dict(cond, until=-C.T0, **({"limit": lim} if lim is not None else {})))
     # a seeded sample of the rest of the product (3 and 4 fields)
     rest = [c for c in itertools.product(ids, authors, kinds, tags) if sum(x is not None for x in c) > max_fields]
     rnd.shuffle(rest)
